@@ -7,6 +7,7 @@ import (
 	"runtime/debug"
 	"sort"
 	"strings"
+	"time"
 
 	"gonum.org/v1/gonum/blas"
 	"gonum.org/v1/gonum/blas/blas64"
@@ -497,19 +498,65 @@ func allFinite(v []float64) bool {
 	return true
 }
 
-// catch runs f and returns the recovered panic value as a string ("" if none).
+// hangLimit is the watchdog for one call into gonum. It only turns an endless
+// iteration (seen with corrupted workspace under a mutant) into a reported
+// failure instead of a stuck shard; no oracle depends on it. The slowest
+// legitimate call (a 900×900 orthogonal factor) takes a few seconds.
+const hangLimit = 60 * time.Second
+
+// hangsSeen counts calls abandoned by the watchdog in this process; after the
+// first one the limit drops to 10 s so that a shard whose every case hangs
+// still ends within its budget.
+var hangsSeen int
+
+// catch runs f under the watchdog and returns the recovered panic value as a
+// string ("" if none); a call that does not return within hangLimit yields a
+// message starting with "HANG" and the goroutine is abandoned.
 func catch(f func()) (msg string) {
-	defer func() {
-		if e := recover(); e != nil {
-			msg = fmt.Sprint(e)
-			if msg == "" {
-				msg = "panic"
+	done := make(chan string, 1)
+	go func() {
+		defer func() {
+			if e := recover(); e != nil {
+				m := fmt.Sprint(e)
+				if m == "" {
+					m = "panic"
+				}
+				lastStack = shortStack()
+				done <- m
+				return
 			}
-			lastStack = shortStack()
-		}
+			done <- ""
+		}()
+		f()
 	}()
-	f()
-	return ""
+	limit := hangLimit
+	if hangsSeen > 0 {
+		limit = 10 * time.Second
+	}
+	select {
+	case m := <-done:
+		return m
+	case <-time.After(limit):
+		lastStack = ""
+		hangsSeen++
+		return fmt.Sprintf("HANG: no return within %v", limit)
+	}
+}
+
+// call runs one gonum call; a panic or a hang is recorded as a violation and
+// false is returned.
+func call(t *vlib.T, what string, f func()) bool {
+	msg := catch(f)
+	switch {
+	case msg == "":
+		return true
+	case strings.HasPrefix(msg, "HANG"):
+		t.NoConfirm()
+		t.FailClass("hang", "%s: %s", what, msg)
+	default:
+		t.FailClass("unexpected-panic", "%s panicked: %s %s", what, msg, lastStack)
+	}
+	return false
 }
 
 // finding records a suspected genuine gonum defect under a class name that
@@ -546,4 +593,14 @@ func shortStack() string {
 		}
 	}
 	return "@ " + strings.Join(keep, " < ")
+}
+
+// failCall records a panic or hang message obtained from catch.
+func failCall(t *vlib.T, what, msg string) {
+	if strings.HasPrefix(msg, "HANG") {
+		t.NoConfirm()
+		t.FailClass("hang", "%s: %s", what, msg)
+		return
+	}
+	t.FailClass("unexpected-panic", "%s panicked: %s %s", what, msg, lastStack)
 }
